@@ -41,6 +41,9 @@ type Item struct {
 	Method string `json:"method"`
 	Root   string `json:"root"`
 	Tests  bool   `json:"tests"`
+	// AllowParamMutation: translate assignments to elements of slice parameters / fields behind
+	// pointer parameters as local updates although the caller would see them (purefunc only).
+	AllowParamMutation bool `json:"allow_param_mutation"`
 }
 
 type Spec struct {
@@ -540,7 +543,6 @@ func main() {
 		}
 	}
 	_ = os.Chdir(repo) // go/build resolves module packages relative to the working directory
-	fmt.Fprintf(&out, "(* GENERATED by harness/srcgen from /repo's working tree — do not edit.\n   Module %s. Regenerated on every check run. *)\nFrom Sdns Require Import Common.Base.\nOpen Scope Z_scope.\n\n", spec.Module)
 	for _, it := range spec.Items {
 		if it.Type == "" {
 			it.Type = "Z"
@@ -558,13 +560,20 @@ func main() {
 			doSwitchCases(it)
 		case "purefunc":
 			doPureFunc(it)
+		case "loopfunc":
+			doLoopFunc(it)
 		default:
 			fmt.Println("srcgen: unknown kind", it.Kind)
 			os.Exit(2)
 		}
 	}
+	imports := "Common.Base"
+	if usesGoList {
+		imports = "Common.Base Common.GoList"
+	}
+	final := fmt.Sprintf("(* GENERATED by harness/srcgen from /repo's working tree — do not edit.\n   Module %s. Regenerated on every check run. *)\nFrom Sdns Require Import %s.\nOpen Scope Z_scope.\n\n", spec.Module, imports) + out.String()
 	old, _ := os.ReadFile(outPath)
-	if string(old) == out.String() {
+	if string(old) == final {
 		fmt.Println("srcgen: unchanged", outPath)
 		return
 	}
@@ -572,7 +581,7 @@ func main() {
 		fmt.Println("srcgen:", err)
 		os.Exit(2)
 	}
-	if err := os.WriteFile(outPath, []byte(out.String()), 0o644); err != nil {
+	if err := os.WriteFile(outPath, []byte(final), 0o644); err != nil {
 		fmt.Println("srcgen:", err)
 		os.Exit(2)
 	}
